@@ -137,7 +137,12 @@ def inline_with_setters(m: pf.Module, cls_name: str, target: str, max_depth: int
     """Copy of `m` in which method `target` of `cls_name` (or the setter of property `target`) has the statement-level calls of its same-class
     helpers inlined, a store through a property setter being such a call.  Raises AnalysisError when a store through a setter cannot be
     inlined (the caller would otherwise silently miss the setter's effect)."""
-    tree = copy.deepcopy(m.tree)
+    top = [st for st in m.tree.body if isinstance(st, ast.ClassDef) and st.name == cls_name]
+    if len(top) == 1:
+        # only the class is copied (it is all that gets rewritten); the other top-level statements are shared with `m`
+        tree = ast.Module(body=[copy.deepcopy(st) if st is top[0] else st for st in m.tree.body], type_ignores=[])
+    else:
+        tree = copy.deepcopy(m.tree)
     m2 = pf.Module(m.rel, m.path, m.src, tree)
     cm = ClassModel(m2, cls_name)
     fn = cm.setters.get(target) if target_is_setter else cm.methods.get(target)
@@ -350,6 +355,8 @@ class Sym:
             return ('det', type(e.op).__name__, (ev(e.left), ev(e.right)))
         if isinstance(e, ast.IfExp):
             return _alt([ev(e.body), ev(e.orelse)])
+        if isinstance(e, ast.BoolOp):
+            return _alt([ev(v) for v in e.values])  # `a or b` / `a and b` evaluate to one of the operands
         if isinstance(e, ast.Attribute):
             if recv is not None and self_attr(e, recv) is not None:
                 a = self.alias.get(e.attr, e.attr)
@@ -362,6 +369,8 @@ class Sym:
             if d is not None and self.cm is not None and d.startswith(self.cm.name + '.') and d[len(self.cm.name) + 1:] in self.cm.consts:
                 return ('const', str(self.cm.consts[d[len(self.cm.name) + 1:]]))
             base = ev(e.value)
+            if base[0] in ('fresh', 'det', 'cat', 'const', 'param', 'slot'):
+                return ('det', '.' + e.attr, (base,))  # an attribute of a value is a function of that value (uuid4().hex, self._x.path)
             return self._field(base, e.attr)
         if isinstance(e, ast.Name):
             if e.id in binds:
@@ -374,6 +383,8 @@ class Sym:
                     return base
                 if base[0] in ('slot', 'slotelem'):
                     return ('list', ('slotelem', base[1]))
+                if base[0] in ('det', 'cat', 'const', 'fresh', 'param'):
+                    return ('det', 'slice', (base,))  # a substring is a function of the string
                 return ('unknown', pf.nsrc(e))
             if base[0] == 'list':
                 return base[1]
@@ -798,13 +809,22 @@ class AbsExec:
         if isinstance(st, (ast.With, ast.AsyncWith)):
             return self.run(st.body, env)
         if isinstance(st, ast.Try):
-            keys = self.assigned(st.body)
-            a = self.run(st.body, dict(env))
+            # an exception may leave the body after any statement: a handler starts from the join of the states between the body's statements
+            # (a simple statement assigns atomically; what compound statements assign is forgotten, they may be left half-way)
+            snaps: List[Env] = [dict(env)]
+            a: Optional[Env] = dict(env)
+            for bst in st.body:
+                if a is None:
+                    break
+                a = self.stmt(bst, a)
+                if a is not None:
+                    snaps.append(dict(a))
+            compound = [b for b in st.body if isinstance(b, (ast.If, ast.For, ast.AsyncFor, ast.While, ast.With, ast.AsyncWith, ast.Try))]
             if a is not None and st.orelse:
                 a = self.run(st.orelse, a)
             outs = [a] if a is not None else []
             for h in st.handlers:
-                b = self.run(h.body, self.havoc(env, keys))
+                b = self.run(h.body, self.havoc(_join_envs(snaps), self.assigned(compound)))
                 if b is not None:
                     outs.append(b)
             out = _join_envs(outs) if outs else None
@@ -981,7 +1001,11 @@ class Concrete:
                     env.pop(kk, None)
             nxt(env)
             return
-        if isinstance(st, (ast.For, ast.AsyncFor, ast.While, ast.Try)):
+        if isinstance(st, ast.Try):
+            # one feasible way through: the body completes without raising
+            self.run(list(st.body) + list(st.orelse) + list(st.finalbody) + list(rest), env, k)
+            return
+        if isinstance(st, (ast.For, ast.AsyncFor, ast.While)):
             # not interpreted: forget what the construct may assign
             env = dict(env)
             ae = AbsExec(self.recv, self.consts, '')
@@ -1030,6 +1054,15 @@ def find_witness(stmts: Sequence[ast.stmt], recv: Optional[str], consts: Dict[st
             continue
         for r in res:
             if target in r and r[target] < bound:
+                # drop the inputs the outcome does not depend on (leaving them unknown still reaches a value below the bound)
+                for a in [x for x in env if x not in prefer and not x.startswith('len(')]:
+                    trial = {k: v for k, v in env.items() if k != a}
+                    try:
+                        rs = Concrete(recv, consts).results(stmts, trial)
+                    except AnalysisError:
+                        continue
+                    if any(target in x and x[target] == r[target] for x in rs):
+                        env = trial
                 w = dict(env)
                 w['=> ' + target] = r[target]
                 return w
@@ -1041,10 +1074,20 @@ def relevant_atoms(stmts: Sequence[ast.stmt], recv: Optional[str], target: str) 
     compound statements that assign a relevant atom, and guards `if t: raise` that mention a relevant atom)."""
     def atoms_of(e: ast.AST) -> Set[str]:
         out: Set[str] = set()
-        for n in ast.walk(e):
+        stack = [e]
+        while stack:
+            n = stack.pop()
             k = atom_key(n, recv) if isinstance(n, (ast.Name, ast.Attribute, ast.Call)) else None
             if k is not None:
-                out.add(k)
+                if not (isinstance(n, ast.Name) and n.id == recv):
+                    out.add(k)
+                continue  # an atom is opaque: `self` inside `self.x`, `x` inside `len(x)` are not atoms of their own
+            if isinstance(n, ast.Call):
+                stack.extend(list(n.args) + [kw.value for kw in n.keywords])  # the callee name is not a value
+                continue
+            if isinstance(n, ast.Attribute):
+                continue  # attribute chain on something that is not the receiver: not an integer atom
+            stack.extend(ast.iter_child_nodes(n))
         return out
     ae = AbsExec(recv, {}, '')
     rel: Set[str] = {target}
